@@ -1,5 +1,5 @@
 SPECIFICATION Spec
-CONSTANT Depth = 3
+CONSTANT Depth = 4
 CONSTANT Assume = {"A", "B", "C", "D", "E"}
 CONSTRAINT Bound
 VIEW View
